@@ -432,9 +432,9 @@ func seqsCoq(c Case, obs HObs) string {
 		}
 		bg := append(bitsOf(so.GA), bitsOf(so.GB)...)
 		bo := append(bitsOf(so.OA), bitsOf(so.OB)...)
-		seqs = append(seqs, fmt.Sprintf("mkSeq %d %s %s (%s) %s %s %s %s %s%%Z %s%%Z %s %s %s",
+		seqs = append(seqs, fmt.Sprintf("mkSeq %d %s %s (%s) %s %s %s %s %s%%Z %s%%Z %s %s %s %s",
 			s.N, QLL(emTable(c, s)), FLL(so.EmF), G(so.LogPdf), GLL(so.GA), GLL(so.GB), GLL(so.OA), GLL(so.OB),
-			ZList(bg), ZList(bo), marg, List(post), NL(so.Vit)))
+			ZList(bg), ZList(bo), marg, List(post), NL(so.Vit), clsCoq(so.Cls)))
 	}
 	return "[" + strings.Join(seqs, ";\n     ") + "]"
 }
@@ -525,7 +525,7 @@ func genTreeRange(r *Rng, a, b, depth int) TreeJ {
 	return t
 }
 
-func genSeqs(r *Rng, c *Case, m, ne, nsym int, nlen []int) {
+func genSeqs(r *Rng, w *CaseWriter, c *Case, m, ne, nsym int, nlen []int) {
 	nseq := r.Range(1, 2)
 	for q := 0; q < nseq; q++ {
 		var s Seq
@@ -553,6 +553,9 @@ func genSeqs(r *Rng, c *Case, m, ne, nsym int, nlen []int) {
 				d[k] = append(d[k], d[k][r.Intn(len(d[k]))])
 			}
 			s.Sets = append(s.Sets, d)
+		}
+		if isCat(*c) {
+			s.Cls = genCls(r, w, m, s.N)
 		}
 		c.Seqs = append(c.Seqs, s)
 	}
@@ -657,7 +660,7 @@ func genChmm(r *Rng, w *CaseWriter) Case {
 	if c.Sub == "cat" {
 		c.Theta = genTheta(r, ne, nsym)
 	}
-	genSeqs(r, &c, m, ne, nsym, []int{1, 2, 3, 3, 2})
+	genSeqs(r, w, &c, m, ne, nsym, []int{1, 2, 3, 3, 2})
 	return c
 }
 
@@ -705,7 +708,7 @@ func genHhmm(r *Rng, w *CaseWriter) Case {
 	if m >= 5 {
 		lens = []int{1, 2, 3, 2}
 	}
-	genSeqs(r, &c, m, ne, nsym, lens)
+	genSeqs(r, w, &c, m, ne, nsym, lens)
 	return c
 }
 
